@@ -19,7 +19,7 @@
    The invariant for the proof is now: m_reissue[w] = (ops0, n) iff w holds an uncompleted task whose operation list is
    ops0 and whose t_retry is n > 0 ... precisely: an entry (ops0, n) of w means w holds a task with exactly these operations
    and t_retry = n; a worker that holds a task and has no entry has t_retry = 0 (docs/areas/Sched-retry-proofs.md). *)
-From VF Require Import Sched.ProofsRetry1 Sched.ProofsRetry2 Sched.ProofsRetry3 Sched.ProofsRetry4 Sched.ProofsRetry5 Sched.Spec Sched.Corr.
+From VF Require Import Sched.ProofsRetry1 Sched.ProofsRetry2 Sched.ProofsRetry3 Sched.ProofsRetry4 Sched.ProofsRetry5 Sched.ProofsRetry6 Sched.ProofsRetry7 Sched.Spec Sched.Corr.
 Open Scope Z_scope.
 
 (* ---- building blocks that ARE proved (all closed under the global context) ----------------------------------------------------------------------- *)
@@ -48,6 +48,33 @@ Theorem retry_counter_bounded : forall cfg t0 evs T,
   (t_retry (get_task (fst (run (init cfg t0) evs)) T) <= cf_retry_count cfg)%nat.
 Proof. exact retry_counter_bounded. Qed.
 Print Assumptions retry_counter_bounded.
+
+(* model side, every state and every event: a task that is assigned to worker w after the event was assigned to w before it
+   with the same counter (or one more: Synchronize events only), or its counter has just been reset (0; 1 if it was also
+   counted).  The assignment writes t_worker and t_retry := 0 in one primitive update *)
+Theorem assigned_retry_step : forall s eh T w,
+  let s' := fst (step s eh) in
+  t_worker (get_task s' T) = Some w ->
+  (t_worker (get_task s T) = Some w /\ (t_retry (get_task s' T) = t_retry (get_task s T) \/ t_retry (get_task s' T) = S (t_retry (get_task s T)))) \/
+  t_retry (get_task s' T) = 0%nat \/ t_retry (get_task s' T) = 1%nat.
+Proof. exact assigned_retry_step. Qed.
+Print Assumptions assigned_retry_step.
+
+(* the same for the task a registered worker holds, in reachable states (through workers_tasks_inverse): after one event of
+   a run a registered worker that holds T holds it uncompleted, and either it was registered and held T before with the
+   same counter (one more in a Synchronize event), or T's counter is 0 (1 in a Synchronize event) *)
+Theorem held_retry_step : forall cfg t0 evs eh, no_phantom_sync (evs ++ [eh]) ->
+  let s := fst (run (init cfg t0) evs) in
+  let s' := fst (step s eh) in
+  forall w T, worker_exists s' w = true -> k_task (get_worker s' w) = Some T ->
+    t_resp (get_task s' T) = None /\
+    ((worker_exists s w = true /\ k_task (get_worker s w) = Some T /\
+      (t_retry (get_task s' T) = t_retry (get_task s T) \/
+       (is_sync (fst eh) = true /\ t_retry (get_task s' T) = S (t_retry (get_task s T))))) \/
+     t_retry (get_task s' T) = 0%nat \/
+     (is_sync (fst eh) = true /\ t_retry (get_task s' T) = 1%nat)).
+Proof. exact held_retry_step. Qed.
+Print Assumptions held_retry_step.
 
 (* monitor side: positions 14 and 15 and the next m_reissue are functions of m_reissue before the event, the two dumps, the
    event and its observations: pm_clear, rereq, retry_step, pc_early, pm_follow of ProofsMon1.v applied to the monitor state
